@@ -82,8 +82,8 @@ def _find_writers(fns):
             continue
         calls = [ev for ev in g.events('CALL')]
         wr = [ev for ev in calls if ev.callee == 'qb_log_thread_log_write']
-        if len(wr) == 1 and not g.natural_loops() and all(ev.callee in ('qb_log_thread_log_write', 'pthread_self') for ev in calls) and \
-                g.must_pass(('entry',), lambda ev: ev is wr[0])[0]:
+        if len(wr) == 1 and not g.natural_loops() and g.must_pass(('entry',), lambda ev: ev is wr[0])[0] and \
+                not any(ev.callee in ('qb_thread_lock', 'qb_thread_unlock', 'qb_list_del', 'free', 'sem_post', 'sem_wait') for ev in calls):
             out.append(g.name)
     return out
 
